@@ -120,11 +120,27 @@ def cmd_check(prop, tier, seed, args):
         firsts.setdefault(v["violation"]["cause_key"], v)
     for v in sorted(firsts.values(), key=lambda x: x["idx"])[:8]:
         case, vrec = v["case"], v["violation"]
-        shrunk, execs = core.shrink(case, vrec)
+        if v.get("died"):
+            # the interpreter itself died somewhere in this chunk: nothing to shrink in-process; the replay is the chunk,
+            # executed in a child process
+            path = core.write_sequence_replay(prop, seed, tier, v)
+            ok, out = core.verify_replay_fresh(prop, path)
+            if not ok:
+                print("HARNESS-ERROR: a worker process died (exit %s) and the chunk does not reproduce it:\n%s" % (vrec["detail"].get("exitcode"), out))
+                write_evidence(prop, tier, seed, pm.LEVEL, total, time.time() - t0, extra, nviol)
+                return 2
+            print("violation: %s" % json.dumps(vrec, sort_keys=True))
+            print("VIOLATION property=%s replay=%s" % (prop, path))
+            rc = 1
+            continue
+        slow = vrec["cause_key"].startswith("run-did-not-finish")
+        if slow:
+            core.RUN_TIMEOUT_S[0] = 10          # a run takes milliseconds; ten seconds are ample to tell "hangs" while shrinking
+        shrunk, execs = core.shrink(case, vrec, max_execs=16 if slow else 600)
         r = core.run_case(shrunk)
         if not core.same_violation(r["violation"], vrec):
             shrunk, r = case, core.run_case(case)
-        path = core.write_replay(prop, seed, v["idx"], shrunk, r["violation"], len(case["ops"]), tier)
+        path = core.write_replay(prop, seed, v["idx"], shrunk, r["violation"], len(case["ops"]), tier, run_timeout_s=10 if slow else None)
         ok, out = core.verify_replay_fresh(prop, path)
         if not ok:
             # depends on state carried across runs inside the worker process: replay the worker's whole sequence
@@ -175,6 +191,25 @@ def cmd_replay(prop, path, args):
     seams.install()
     with open(path) as f:
         peek = json.load(f)
+    if peek.get("run_timeout_s"):
+        core.RUN_TIMEOUT_S[0] = int(peek["run_timeout_s"])
+    if peek.get("mode") == "sequence" and peek["violation"]["cause_key"].startswith("interpreter-died"):
+        import multiprocessing
+        ctx = multiprocessing.get_context("fork")
+        p = ctx.Process(target=core.replay_sequence, args=(peek,))
+        p.start()
+        p.join(3000)
+        if p.is_alive():
+            p.terminate()
+            p.join()
+        if p.exitcode != 0:
+            got = dict(peek["violation"])
+            got["detail"] = dict(got.get("detail") or {}, replay_exitcode=p.exitcode)
+            print("violation: %s" % json.dumps(got, sort_keys=True))
+            print("VIOLATION property=%s replay=%s" % (got["property"], path))
+            return 1
+        print("replay %s (sequence of %d cases): the interpreter survived, no violation" % (path, len(peek["cases"])))
+        return 0
     if peek.get("mode") == "sequence":
         res = core.replay_sequence(peek)
         got = res["violation"] if res else None
